@@ -94,6 +94,12 @@ OPTS = {"SGD": (torch.optim.SGD, {}), "SGDm": (torch.optim.SGD, {"momentum": 0.9
         "Adagrad": (torch.optim.Adagrad, {}), "SGDnesterov": (torch.optim.SGD, {"momentum": 0.5, "nesterov": True})}
 
 
+def gpu_flag(r):
+    """gpu=True is a supported request on a machine without CUDA: the library warns and continues on the
+    CPU; every contract holds as with gpu=False"""
+    return r.random() < 0.3 and not torch.cuda.is_available()
+
+
 def apply(w, act, r):
     """Perform one specification action through the public API.  Returns dict(err, events,
     rng_moved, aux_moved_steps, steps) ; an unexpected exception propagates to the caller."""
@@ -105,7 +111,7 @@ def apply(w, act, r):
         if a == "ConstructSizes":
             ty, nv = act["ty"], act["nv"]
             args = [nv]
-            kw = {"gpu": False}
+            kw = {"gpu": gpu_flag(r)}
             if act["nh"]:
                 if r.random() < 0.5:
                     args.append(act["nh"])
@@ -121,12 +127,13 @@ def apply(w, act, r):
             w.S = CLASSES[ty](*args, **kw)
             w.type = ty
         elif a == "NewModule":
+            zw = {"zero_weights": True} if act["opt"] == "zero_weights" else ({"zero_weights": False} if r.random() < 0.3 else {})
             if act["ty"] == "binary":
-                w.M = BinaryRBM(act["nv"], act["nh"], gpu=False)
+                w.M = BinaryRBM(act["nv"], act["nh"], gpu=gpu_flag(r), **zw)
             else:
-                w.M = PurificationRBM(act["nv"], act["nh"], act["na"], gpu=False)
+                w.M = PurificationRBM(act["nv"], act["nh"], act["na"], gpu=gpu_flag(r), **zw)
         elif a == "ConstructModule":
-            w.S = CLASSES[act["ty"]](act["nv"], module=w.M, gpu=False)
+            w.S = CLASSES[act["ty"]](act["nv"], module=w.M, gpu=gpu_flag(r))
             w.type = act["ty"]
         elif a == "Mutate":
             net = {"am": lambda: w.S.rbm_am, "ph": lambda: w.S.rbm_ph, "M": lambda: w.M}[act["tgt"]]()
